@@ -334,7 +334,9 @@ TokenSpelling(t) ==
 \* separate.  Its listing keeps the dot form, so that it reads back as written.
 DotForm(v) ==
     LET p == NPrint(v)
-    IN  IF p.ok /\ Len(p.s) >= 2 /\ p.s[1] = 48 /\ p.s[2] = DOT THEN [ok |-> TRUE, s |-> Tail(p.s)] ELSE p
+    IN  IF p.ok /\ Len(p.s) >= 2 /\ p.s[1] = 48 /\ p.s[2] = DOT THEN [ok |-> TRUE, s |-> Tail(p.s)]
+        ELSE IF p.ok /\ p.s = <<48>> THEN [ok |-> TRUE, s |-> <<DOT, 48>>]          \* `X.0`
+        ELSE p
 
 RECURSIVE TokensSpellingFrom(_, _)
 TokensSpellingFrom(toks, prev) ==
